@@ -13,6 +13,7 @@ Definition nat_set_exact (model obs : list nat) : bool :=
 
 Inductive link_case :=
 | Hist (univ : list link) (me : Z)
+       (startup : bool)                   (* true: the transport constructor has not returned yet (Ready is in h) *)
        (held : list (Z * Z))              (* directives already referenced (running) before the history *)
        (h : list action)
        (obs : list (list nat))            (* per action: directive values of a Resolve, [] otherwise *)
@@ -48,9 +49,9 @@ Fixpoint perms {A} (l : list A) : list (list A) :=
 
 Definition link_agree (c : link_case) : bool :=
   match c with
-  | Hist univ me held h obs links by_peer gpl closed =>
+  | Hist univ me startup held h obs links by_peer gpl closed =>
       let U := univ_fn univ in
-      let s0 := set_dirs (init me) (map (fun k => (fst k, snd k, [])) held) in
+      let s0 := set_dirs (if startup then init0 me else init me) (map (fun k => (fst k, snd k, [])) held) in
       let s := run_from U s0 h in
       list_list_eqb (trace U s0 h) obs
       && links_eqb (st_links s) links
